@@ -126,5 +126,18 @@ func ScenarioClasses(v *Verdict, sc *Scenario) {
 	if multi {
 		v.Class("multi-input-conv")
 	}
+	hostile := false
+	for i := range fs {
+		for _, l := range append(append([]Label(nil), fs[i].In...), fs[i].Out...) {
+			for _, ch := range l.Name + l.Sub {
+				if ch == '/' || ch == '-' {
+					hostile = true
+				}
+			}
+		}
+	}
+	if hostile {
+		v.Class("hostile-labels")
+	}
 	v.Class(fmt.Sprintf("convs=%d", len(sc.Convs)))
 }
